@@ -279,22 +279,39 @@ def call_by_contract(I, node, qual, args, kwargs, st, ctor=None):
 
 
 def havoc_modifies(I, c, env, st):
+    """frame: the named fields of self (dotted paths reach into owned sub-objects) and the
+    abstract value of every parameter listed in `mutates` become arbitrary"""
+    names = list(env)
+    for pname in getattr(c, 'mutates', ()) or ():
+        r = env.get(pname)
+        if isinstance(r, Ref) and isinstance(st.heap[r.addr], HObj) and st.heap[r.addr].cls.startswith('opaque:'):
+            tname = st.heap[r.addr].cls[7:]
+            o = st.mut(r.addr)
+            o.fields['v'] = SOpaque(I.fresh('mut_' + pname, opaque_sort(tname)), tname)
+        else:
+            raise EngineLimit('mutates %s: not a mutable abstract object' % pname)
     if not c.modifies:
         return
-    names = list(env)
     self_ref = env[names[0]]
     if not isinstance(self_ref, Ref):
         raise EngineLimit('modifies on non-object')
-    stype = c.self_type
-    o = st.mut(self_ref.addr)
     for fld in c.modifies:
-        if stype is None or fld not in stype.fields:
-            raise EngineLimit('modifies field %s without declared type' % fld)
-        outs = list(fresh_value(I, st, stype.fields[fld], 'hv_' + fld, lazy=True))
+        path = fld.split('.')
+        t = c.self_type
+        ref = self_ref
+        for k, part in enumerate(path):
+            if t is None or not isinstance(t, Obj) or part not in t.fields:
+                raise EngineLimit('modifies field %s without declared type' % fld)
+            t = t.fields[part]
+            if k < len(path) - 1:
+                ref = st.heap[ref.addr].fields[part]
+                if not isinstance(ref, Ref):
+                    raise EngineLimit('modifies path %s' % fld)
+        outs = list(fresh_value(I, st, t, 'hv_' + path[-1], lazy=True))
         if len(outs) != 1:
             raise EngineLimit('havoc of optional field')
-        o = st.mut(self_ref.addr)
-        o.fields[fld] = outs[0][1]
+        o = st.mut(ref.addr)
+        o.fields[path[-1]] = outs[0][1]
 
 
 # --------------------------------------------------------------------------------------
@@ -593,6 +610,9 @@ def regex_groups_search(I, node, rgx, R, val, st):
 
 
 def external_call(I, node, name, args, kwargs, st):
+    if name.startswith('ext:'):
+        cls, meth, selfref = name[4:].rsplit('.', 1) + [None]
+        raise EngineLimit('external method dispatch')
     ext = EXTERNALS.get(name)
     if ext is None:
         raise EngineLimit('external call %s' % name)
@@ -600,3 +620,26 @@ def external_call(I, node, name, args, kwargs, st):
 
 
 EXTERNALS = {}
+EXT_METHODS = {}     # (class name, method) -> handler(I, node, selfref, args, kwargs, st)
+
+
+def ext_textout_write(I, node, selfref, args, kwargs, st):
+    """model of a text output stream used by X12Writer: every write must be the formatted text of
+    one segment followed by the line end; the ghost log records (segment view, delimiters, eol)"""
+    if len(args) != 1 or not isinstance(args[0], SStr):
+        yield st, I.exc('TypeError', node)
+        return
+    tag = getattr(args[0], 'tag', None)
+    if tag is None or tag.get('suffix') is None:
+        raise EngineLimit('write of a text that is not <segment>.format(...) + eol')
+    o = st.heap[selfref.addr]
+    log = o.fields['log']
+    lo = st.heap[log.addr]
+    entry = STuple([tag['seg']] + list(tag['terms']) + [tag['suffix']])
+    lo2 = st.mut(log.addr)
+    lo2.e = z3.Concat(lo.e, z3.Unit(to_z(entry, lo.ety)))
+    I.trusted.add('text output stream: write(text) appends; the ghost log keeps the segment whose format() produced the text')
+    yield st, SInt(I.fresh('nwritten', z3.IntSort()))
+
+
+EXT_METHODS[('ext.TextOut', 'write')] = ext_textout_write
